@@ -846,6 +846,13 @@ package jd
 //@   ensures_bounded ret0 == ""
 //@   carries C14
 
+//@ contract verifCLIAgree
+//@   bounded
+//@   needs_cli
+//@   universe i verifIndexRange(47)
+//@   ensures_bounded ret0 == ""
+//@   carries C14
+
 //@ contract verifCLIMalformed
 //@   bounded
 //@   needs_cli
